@@ -26,6 +26,8 @@ CHRONO_ASSUMPTIONS = [
     "an eligible day exists in the search direction inside chrono's range (has_fwd/has_bwd preconditions): without it the real loops end in chrono's overflow panic; implied by a finite holiday set and a working weekday inside the range",
 ]
 
+IDENTITY_RULE_GENERAL = "decision rule for functions marked `identity` in the contracts (arithmetic identities: operator bodies, elementary functions, closed forms, basis functions, solver kernels): when one of their obligations stops verifying after a change it is reported as a violation only if the probe of the real code against its independent oracle finds a discrepancy; if the probe ran and found none the run is undecided (exit 2) - a nonlinear identity the solver cannot re-derive after an algebraic rearrangement is not evidence of a defect (DESIGN 4.1)"
+
 DUAL_ASSUMPTIONS = [
     "R6: f64 is modelled by R64 with mathematical real arithmetic (rounding, NaN, inf, signed zero dropped); division requires a non-zero divisor",
     "shim/collections.rs: String is an abstract name; IndexSet<String> is a duplicate-free sequence with first-occurrence from_iter / union; iterator adapters specified eagerly (closures in the extracted code are pure)",
@@ -33,15 +35,19 @@ DUAL_ASSUMPTIONS = [
     "Arc is transparent; Arc::ptr_eq is an uninterpreted boolean that implies equal contents",
     "R3: the trait impls that auto_ops' impl_op*! macros generate around each closure are re-generated from the macro's documented scheme (forwarders), not taken from its expansion",
     "#[derive(Clone)] on Dual/Dual2/VarsRelationship is the field-wise clone written out in spec/dualview.rs",
+    IDENTITY_RULE_GENERAL,
 ]
+
 
 AD_ASSUMPTIONS = [
     "oracle: the textbook forward-mode rules of spec/ad.rs; exp, ln, x^p, Phi, Phi^-1, sqrt, pi are uninterpreted real functions; assumed facts: x^2 = x*x, x^-1 = 1/x, x^-2 = 1/x^2, x^-3 = 1/x^3 (x != 0), sqrt(2 pi) > 0; phi(x) = exp(-x^2/2)/sqrt(2 pi) and 1/phi(x) = sqrt(2 pi) exp(x^2/2) are the definitions used for the normal density",
     "that d/dx exp = exp, d/dx ln = 1/x, d/dx x^p = p x^(p-1), Phi' = phi, (Phi^-1)' = 1/phi(Phi^-1) is calculus, taken as the oracle and not derived from limits",
 ]
 
+
+IDENTITY_RULE = "decision rule for the nine closed-form interpolation functions (marked `identity` in contracts/curves.vx): when one of their obligations stops verifying after a change, it is reported as a violation only if the probe of the real code against the closed form (values, gradients, Hessians on its grid) finds a discrepancy; otherwise the run is undecided (exit 2), because a nonlinear identity the solver cannot re-derive after an algebraic rearrangement is not evidence of a defect"
+
 CURVE_UNCOVERED = [
-    "sensitivities (gradient/Hessian) of the log-linear and linear-zero-rate rules at Dual/Dual2: only their VALUES are under contract; the linear rule has exact sensitivities",
     "the log-cubic (spline) interpolator and the null interpolator",
 ]
 
@@ -92,7 +98,7 @@ CHECKS = {
         "uncovered": [
             "JSON loading in general (serde derive expansions + serde_json) is outside both verifiers' reach: only the three replayed inputs of the genuine defects found there (cases d3, d4: rebuild-on-load data models; d6: NaN in the spline solve) are re-run on every check, as single-input bounded stand-ins",
             "Ccy::try_new: the string operations (lower-casing, byte length) and the global interner are abstract; that a byte length of 3 means three ASCII characters is not modelled",
-            "curve constructors (CurveDF::try_new) are not under contract",
+            "curve constructor CurveDF::try_new is under contract in unit `curves` (always Ok; checked under C11), not re-listed among C20's obligations; a curve with fewer than two nodes is accepted by it and look-ups on such a curve are outside every contract here (precondition nodes_ok)",
         ],
     },
     "C17": {
@@ -171,6 +177,7 @@ CHECKS = {
         "assumptions": [
             "R6: f64 modelled by mathematical reals (R64)",
             "oracle: the Cox-de Boor recursion with right-continuous pieces, 0/0 := 0 and the right-end-point rule, and de Boor's derivative recursion, as spec functions bsp / dsp in contracts/splines.vx; that dsp IS the derivative of the piecewise polynomial is de Boor's theorem (taken as the oracle, not re-derived from limits)",
+            IDENTITY_RULE_GENERAL,
         ],
         "uncovered": SPLINE_UNCOVERED,
     },
@@ -209,7 +216,7 @@ CHECKS = {
         ],
         "uncovered": [
             "mut_arrays_remaining_elements: termination and completeness (every tree is filled; cyclic quote sets of the right count are rejected) are NOT proved (bounded probe only); its three selection expressions (iterator chains choosing the node and the open pairs) are ASSUMED contracts",
-            "create_fx_array (lifting the quotes to the requested order, variable names fx_<pair>) is not under contract; existence of a potential vector for a tree of quotes is textbook and not machine-checked",
+            "create_fx_array: its body is under the relational contract lift_post (C10: lifting, naming, conversion, seeding + filling through `_g` stand-ins of the two generic callees); that the stand-ins are the Rg-instances proved here is a declared link, not a proof; existence of a potential vector for a tree of quotes is textbook and not machine-checked",
             "independence of quote order and base currency: bounded probe only",
         ],
     },
@@ -238,6 +245,7 @@ CHECKS = {
             "`non-singular` is taken as `regular(a)` (contracts/linalg.vx): every matrix with kernel inside a's and zeros below the diagonal in its first j columns has an invertible entry in column j at or below row j; its textbook equivalence with det != 0 (real parts for dual numbers) is not machine-checked",
             "row_swap, el_swap, argabsmax: assumed contracts (ndarray mutable view splitting / Zip / max_by are outside Verus' reach)",
             "ndarray slices `s![..]`, views, to_owned, Array::zeros, iterator zip/map/sum: shim contracts (contracts/linalg.vx, shim/ndarray.rs, shim/collections.rs)",
+            IDENTITY_RULE_GENERAL,
         ],
         "uncovered": [
             "row order independence (needs uniqueness of the solution, not derived)",
@@ -261,11 +269,13 @@ CHECKS = {
             "`non-singular` collocation matrix is taken as `regular` (contracts/linalg_f64.vx) of whatever array holds it; that admissible site sets give a regular matrix (Schoenberg-Whitney) is NOT proved",
             "fdsolve / fdmul11_ contracts as verified in unit linalg_f64 (C13); bsplev_single_f64 / bspldnev_single_f64 contracts as verified in unit splines (C14)",
             "ranges `(0..n).map`, slice to_owned, Array1::from_vec, Array2::zeros: shim contracts",
+            "Iterator::sum on dual numbers is taken to dispatch to the crate's `impl Sum` (whose body is under contract, C19); Iterator::sum on f64 is the mathematical sum",
+            IDENTITY_RULE_GENERAL,
         ],
         "uncovered": [
-            "polynomial reproduction (Marsden's identity) and the sensitivity clauses (dual data, dual abscissa): not expressible here without a formalised spline theory",
+            "polynomial reproduction (Marsden's identity) and the sensitivity-to-dual-DATA clause (each datum's sensitivity = the spline solved on unit data; needs uniqueness of the solution): not expressible here without a formalised spline theory; bounded probe only",
             "least-squares mode: only the error returns are covered",
-            "ppdnev_single_dual / ppdnev_single_dual2 / mapped_value (the sums over basis functions at a dual abscissa): bounded probe only; the four basis functions at a dual abscissa ARE under contract (unit splines_dual: chain rule with D^m B, D^(m+1) B, D^(m+2) B)",
+            "dual abscissa: PPSpline<f64>::ppdnev_single_dual / ppdnev_single_dual2 ARE under contract (value S_m(x), gradient S_(m+1)(x)*grad x, Hessian by the chain rule with S_(m+1), S_(m+2), where S_j is what ppdnev_single(x, j) returns); the same two methods of PPSpline<Dual> / PPSpline<Dual2> (dual coefficients AND dual abscissa, through dmul11_) and the mapped_value dispatchers are covered by the bounded probe only",
         ],
     },
     "C07": {
